@@ -169,6 +169,12 @@ class projectQEngine(quantumEngine):
 
         self.apply_onequbit_gate(pQ.ops.Y, qubitNum)
 
+    def apply_S(self, qubitNum):
+        """
+        Applies a S gate to the qubits with number qubitNum.
+        """
+        self.apply_onequbit_gate(pQ.ops.S, qubitNum)
+
     def apply_T(self, qubitNum):
         """
         Applies a T gate to the qubits with number qubitNum.
